@@ -4,7 +4,7 @@
    anchored in the scenario and the random start hosts are hosts of the scenario. *)
 From stdpp Require Import gmap.
 From Coq Require Import ZArith NArith.
-From NSG Require Import Model.Coord Proofs.CoordBase Proofs.CoordDirect Proofs.CoordViews Model.World Model.Load Model.Game Proofs.WorldStep Proofs.WorldInv Proofs.InitViewFacts
+From NSG Require Import Model.Coord Proofs.CoordBase Proofs.CoordDirect Proofs.CoordInv2 Proofs.CoordAgentStep Proofs.CoordViewStep Proofs.CoordViews Model.World Model.Load Model.Game Proofs.WorldStep Proofs.WorldInv Proofs.InitViewFacts
   .
 
 (* what must hold of a start position for the initial view to be well formed and anchored *)
@@ -213,3 +213,27 @@ Section GameNoop.
     destruct (all_ended ags); apply Hgoal; reflexivity.
   Qed.
 End GameNoop.
+
+(* C11 "only grow" for the whole game: between two points of an episode (no run of the reset task in between) the view stored
+   for an agent only grows - networks, hosts, controlled hosts, data and blocks per host - whatever the other agents, the
+   reward task, departures and joins do in between *)
+Section GameMono.
+  Variable sp : role -> start_pos.
+  Variable goal : role -> view -> bool.
+  Variable detect : list gaction -> gaction -> bool.
+  Variable cfg : config.
+
+  Notation gstate := (@state view gworld gaction).
+  Notation gexecs := (@execs view gworld gaction g_wstep g_wreset (g_winit sp) goal detect cfg).
+
+  Theorem game_views_grow W0 ls0 ls (s s' : gstate) c a :
+    gexecs (init_state W0) ls0 = Some s -> gexecs s ls = Some s' -> no_reset ls -> alookup c (agents s) = Some a ->
+    (exists a', alookup c (agents s') = Some a' /\ view_le (a_view a) (a_view a')) \/
+    gone_along g_wstep g_wreset (g_winit sp) goal detect cfg s ls c.
+  Proof.
+    intros H0 He Hok Ha.
+    apply (views_grow_along g_wstep g_wreset (g_winit sp) goal detect cfg view_le view_le_refl view_le_trans) with (a := a); try assumption.
+    - intros [w o] v act. unfold g_wstep. cbn [fst snd]. apply step_mono.
+    - eapply inv2_reachable; eauto.
+  Qed.
+End GameMono.
